@@ -813,8 +813,18 @@ def nonneg(t, facts=None, depth=0):
 GRID_SIZES = (1, 2, 3, 4, 7, 8, 16, 31, 32, 33, 64)
 
 
-def witness(a, b, limit=4000, extra=None):
+_WIT = {}
+
+
+def witness(a, b, limit=1500, extra=None):
     """first grid assignment on which terms a and b evaluate differently (reporting only)"""
+    k = (a.key(), b.key())
+    if k not in _WIT:
+        _WIT[k] = _witness(a, b, limit, extra)
+    return _WIT[k]
+
+
+def _witness(a, b, limit=1500, extra=None):
     syms = sorted(set(a.symbols()) | set(b.symbols()))
     atoms = {x[1]: x[0] for x in (a.all_atoms() | b.all_atoms()) if x[0] in ("v", "b", "p")}
     doms = []
